@@ -1004,6 +1004,16 @@ Proof.
   unfold get_pub. cbn [cont set_code pubs]. rewrite assoc_get_set_same. reflexivity.
 Qed.
 
+(* the panic handler step: one call (one label) with the event and the handler, then the panic handler's own body - with
+   nothing locked by this step: the handler's mutex was released by the instruction before (after_recover_contents) *)
+Theorem panic_handler_step P cfg s a p h rest s' ls :
+  step_instr P cfg s a (IPanicHandler p h) rest = Some (s', ls) ->
+  assoc_get (code s') a = Some (acts (panic_acts P (pb_val (get_pub s p))) ++ rest) /\ ls = [LPanicHandler p (r_id h)] /\
+  seqlocks s' = seqlocks s /\ registry s' = registry s /\ inflight s' = inflight s.
+Proof.
+  intros H. cbn [step_instr] in H. inversion H; subst; clear H. split; [apply code_cont|]. repeat split.
+Qed.
+
 (* a delivery goroutine whose publish context is cancelled when it starts runs nothing but wg.Done - unless the handler
    is a Once handler, which the publish has already claimed: that one runs *)
 Theorem task_start_decision P cfg s a p h rest s' ls :
@@ -3009,6 +3019,9 @@ Proof.
   intros [_ HF]. destruct (assoc_get (p_filters P) f) as [fl|] eqn:E; [apply nowait_acts, (HF f fl E) | apply nowait_nil].
 Qed.
 
+Lemma panic_acts_wf P v : Pwf P -> forall a, In a (panic_acts P v) -> wait_act a = false.
+Proof. intros [HP _] a. unfold panic_acts. destruct (Nat.ltb v panic_retry_below); [apply HP | intros []]. Qed.
+
 Lemma wb_suffix pre c : wb (pre ++ c) -> wb c.
 Proof. intros H p x post E W. apply (H (pre ++ p) x post); [rewrite E, app_assoc; reflexivity | exact W]. Qed.
 Lemma wb_nowait_app X suf : nowait X -> wb suf -> wb (X ++ suf).
@@ -3042,6 +3055,7 @@ Ltac nw_tac HP :=
     | apply (nowait_call_handler _ _ _ _ _ HP)
     | apply (nowait_filter_acts _ _ HP)
     | apply nowait_acts, (proj1 HP)
+    | apply nowait_acts, (panic_acts_wf _ _ HP)
     | apply nowait_entries
     | apply nowait_shards
     | apply nowait_cons; [reflexivity|]
@@ -3218,7 +3232,8 @@ Record Ppanic (P : program) (cfg : buscfg) : Prop := {
   pp_al : forall b, c_after_legacy cfg = Some b -> nopanicb (body_of P b) = true;
   pp_ac : forall b, c_after_ctx cfg = Some b -> nopanicb (body_of P b) = true;
   pp_bc : forallb (fun st => match st with BUser b => nopanicb (body_of P b) | BPersist => true end) (c_before_ctx cfg) = true;
-  pp_fl : forall f fl, assoc_get (p_filters P) f = Some fl -> nopanicb (f_acts fl) = true
+  pp_fl : forall f fl, assoc_get (p_filters P) f = Some fl -> nopanicb (f_acts fl) = true;
+  pp_ph : nopanicb (body_of P panic_body) = true     (* the panic handler does not panic itself *)
 }.
 
 Lemma nopan_acts l : nopanicb l = true -> nopan (acts l).
@@ -3392,6 +3407,11 @@ Proof.
     break_head H; try discriminate; inversion H; subst; clear H; try solve [fin_pan HP].
     eexists. split; [apply code_cont|]. left. eexists. exists rest, []. split; [sp_tac|]. split; [reflexivity|].
     split; [rewrite app_nil_r; apply pr_call_handler | apply tidy_app; [apply tidy_call_handler | apply tidy_nil]].
+  - (* IPanicHandler: its body runs here *)
+    inversion H; subst; clear H.
+    eexists. split; [apply code_cont|]. left. eexists. exists rest, []. split; [sp_tac|]. split; [reflexivity|].
+    split; [apply nopan_pr, nopan_app; [apply nopan_acts; unfold panic_acts; destruct (Nat.ltb _ _); [apply (pp_ph P cfg HP) | reflexivity] | apply nopan_nil]
+           | apply tidy_app; [apply tidy_acts | apply tidy_nil]].
   - (* ITaskStart *)
     break_head H; try discriminate; inversion H; subst; clear H; try solve [fin_pan HP].
     eexists. split; [apply code_cont|]. left. eexists. exists rest, []. split; [sp_tac|]. split; [reflexivity|].
